@@ -143,6 +143,12 @@ Cuts(m) == \/ (m.msg \in {"match", "nomatch"} /\ m.reply # "continue")
 CutResult(m) == IF m.msg = "toomany" THEN "TOO_MANY_MATCHES"
                 ELSE IF m.reply = "abort" THEN "SUCCESS" ELSE "CALLBACK_ERROR"
 
+\* a block on which a regexp of the rule set needs more fibers than RE_MAX_FIBERS ("fiber bomb"): the documented outcome is
+\* ERROR_TOO_MANY_RE_FIBERS for that scan - and nothing else: the scanner is as good as new afterwards (C10, C15)
+RsBomb == "bomb" \in DOMAIN rs /\ rs.bomb
+BlockBombed(b) == "bomb" \in DOMAIN b /\ b.bomb
+FileBombed(file) == RsBomb /\ \E b \in 1..Len(file.blocks) : BlockBombed(file.blocks[b])
+
 \* C11 (+C10, C13: nothing here mentions history, partition or not-ready subsets)
 ProtocolHolds(file, fl, trace, code) ==
   LET body == Msgs(StripWarnings(trace))
@@ -152,8 +158,9 @@ ProtocolHolds(file, fl, trace, code) ==
        THEN /\ cuts = {Len(trace)}                    \* nothing is delivered after the message that stops the scan
             /\ code = CutResult(trace[Len(trace)])
             /\ IsPrefixOf(body, E)
-       ELSE IF code = "SUCCESS" THEN body = E
-       ELSE /\ code \in {"TIMEOUT"}                    \* a limit ended the scan: nothing but a prefix was delivered
+       ELSE IF code = "SUCCESS" THEN body = E /\ ~FileBombed(file)
+       ELSE /\ code \in {"TIMEOUT"} \cup (IF FileBombed(file) THEN {"TOO_MANY_RE_FIBERS"} ELSE {})
+                                                       \* a limit ended the scan: nothing but a prefix was delivered
             /\ IsPrefixOf(body, E)
             /\ \A k \in 1..Len(body) : body[k].msg # "finished"
 
@@ -237,8 +244,13 @@ BlockTimeout ==                 \* scanner.c:74 (elapsed time is checked at i = 
   /\ Return("TIMEOUT", TRUE)
   /\ UNCHANGED <<rs, cur, flags, timeout, leaked, entryPoint, fileSize, iterErr, modules, execNR, cb>>
 
+BlockFails ==                   \* scan.c: a string verification fails with ERROR_TOO_MANY_RE_FIBERS; scanner.c _exit cleans up
+  /\ phase = "gotblock" /\ ~(timeout /\ CurBlock.size > 0) /\ RsBomb /\ BlockBombed(CurBlock)
+  /\ Return("TOO_MANY_RE_FIBERS", TRUE)
+  /\ UNCHANGED <<rs, cur, flags, timeout, leaked, entryPoint, fileSize, iterErr, modules, execNR, cb>>
+
 ScanBlock ==                    \* the block is scanned (scan.c): matches accumulate, rules become due for evaluation
-  /\ phase = "gotblock" /\ ~(timeout /\ CurBlock.size > 0)
+  /\ phase = "gotblock" /\ ~(timeout /\ CurBlock.size > 0) /\ ~(RsBomb /\ BlockBombed(CurBlock))
   /\ LET b    == CurBlock
          hit  == {i \in RuleIdx : Rule(i).mk # 0 /\ i \notin disabled /\ b.mk[Rule(i).mk] > 0}
          over == {i \in hit : matches[i] + b.mk[Rule(i).mk] > MaxMatches}
